@@ -8,6 +8,8 @@
 (*   <<"v", name>>  <<"c", n>>  <<"neg", a>>  <<"abs", a>>                 *)
 (*   <<op, a, b>>  op in {"+","-","*","//","%","<","min","max"}            *)
 (*   <<"if", test, a, b>>                                                  *)
+(*   <<"chain", o1, o2, a, b, c>>  the chained comparison  a o1 b o2 c     *)
+(*                      o1, o2 in {"<", "<=", ">", ">="}                   *)
 (* Theorems checked by TLC for all trees up to MaxSize nodes:              *)
 (*   NormPreservesValue, ACKeepsNorm, NormIdempotent                       *)
 (* and every tree is emitted with its AC variants and single-point         *)
@@ -22,6 +24,7 @@ Consts == {0, 1, 2}
 Unary  == {"neg", "abs"}
 Binary == {"+", "-", "*", "//", "%", "<", "min", "max"}
 AC     == {"+", "*"}
+CmpOps == {"<", "<=", ">", ">="}
 Undef  == 999999                      \* division by zero (propagates)
 
 Leaves == {<<"v", n>> : n \in Vars} \cup {<<"c", n>> : n \in Consts}
@@ -34,6 +37,9 @@ TreesOf(n) ==
          \cup UNION {{<<b, l, r>> : b \in Binary, l \in TreesOf(i), r \in TreesOf(n - 1 - i)} : i \in 1..(n - 2)}
          \cup UNION {{<<"if", t, l, r>> : t \in TreesOf(i), l \in TreesOf(j), r \in TreesOf(n - 1 - i - j)} :
                         <<i, j>> \in {p \in (1..(n - 3)) \X (1..(n - 3)) : p[1] + p[2] <= n - 2}}
+         \cup UNION {{<<"chain", o1, o2, a, b, c>> : o1 \in CmpOps, o2 \in CmpOps,
+                                                    a \in TreesOf(i), b \in TreesOf(j), c \in TreesOf(n - 1 - i - j)} :
+                        <<i, j>> \in {p \in (1..(n - 3)) \X (1..(n - 3)) : p[1] + p[2] <= n - 2}}
 AllTrees == UNION {TreesOf(n) : n \in 1..MaxSize}
 
 (****************************** semantics *********************************)
@@ -43,9 +49,16 @@ Abs(a) == IF a < 0 THEN -a ELSE a
 Min(a, b) == IF a < b THEN a ELSE b
 Max(a, b) == IF a < b THEN b ELSE a
 
+Cmp(o, a, b) == CASE o = "<" -> a < b [] o = "<=" -> a <= b [] o = ">" -> a > b [] OTHER -> a >= b
 RECURSIVE Eval(_, _)
 Eval(t, env) ==
     CASE t[1] = "v" -> env[t[2]]
+      [] t[1] = "chain" -> LET a == Eval(t[4], env) b == Eval(t[5], env) c == Eval(t[6], env) IN
+                            \* Python evaluates left to right and stops at the first false link
+                            IF a = Undef \/ b = Undef THEN Undef
+                            ELSE IF ~Cmp(t[2], a, b) THEN 0
+                            ELSE IF c = Undef THEN Undef
+                            ELSE IF Cmp(t[3], b, c) THEN 1 ELSE 0
       [] t[1] = "c" -> t[2]
       [] t[1] = "neg" -> LET a == Eval(t[2], env) IN IF a = Undef THEN Undef ELSE -a
       [] t[1] = "abs" -> LET a == Eval(t[2], env) IN IF a = Undef THEN Undef ELSE Abs(a)
@@ -63,12 +76,14 @@ Eval(t, env) ==
 (****************************** a total order on trees ********************)
 OpCode(s) == CASE s = "v" -> 1 [] s = "c" -> 2 [] s = "neg" -> 3 [] s = "abs" -> 4 [] s = "+" -> 5
                [] s = "-" -> 6 [] s = "*" -> 7 [] s = "//" -> 8 [] s = "%" -> 9 [] s = "<" -> 10
-               [] s = "min" -> 11 [] s = "max" -> 12 [] s = "if" -> 13
+               [] s = "min" -> 11 [] s = "max" -> 12 [] s = "if" -> 13 [] s = "chain" -> 14
+               [] s = "<=" -> 15 [] s = ">" -> 16 [] s = ">=" -> 17
 RECURSIVE Enc(_)
 Enc(t) == CASE t[1] = "v" -> <<1, t[2]>>
             [] t[1] = "c" -> <<2, t[2]>>
             [] t[1] \in Unary -> <<OpCode(t[1])>> \o Enc(t[2])
             [] t[1] = "if" -> <<13>> \o Enc(t[2]) \o Enc(t[3]) \o Enc(t[4])
+            [] t[1] = "chain" -> <<14, OpCode(t[2]), OpCode(t[3])>> \o Enc(t[4]) \o Enc(t[5]) \o Enc(t[6])
             [] OTHER -> <<OpCode(t[1])>> \o Enc(t[2]) \o Enc(t[3])
 RECURSIVE LexLess(_, _)
 LexLess(s, u) == IF s = <<>> THEN u # <<>>
@@ -94,6 +109,7 @@ Norm(t) ==
     CASE t[1] \in {"v", "c"} -> t
       [] t[1] \in Unary -> <<t[1], Norm(t[2])>>
       [] t[1] = "if" -> <<"if", Norm(t[2]), Norm(t[3]), Norm(t[4])>>
+      [] t[1] = "chain" -> <<"chain", t[2], t[3], Norm(t[4]), Norm(t[5]), Norm(t[6])>>
       [] t[1] \in AC -> LET ts == Terms(t[1], t)
                             ns == [i \in 1..Len(ts) |-> Norm(ts[i])]
                         IN Rebuild(t[1], SortTrees(ns))
@@ -112,6 +128,9 @@ Variants(t) ==
       [] t[1] = "if" -> {<<"if", a, t[3], t[4]>> : a \in Variants(t[2])}
                         \cup {<<"if", t[2], a, t[4]>> : a \in Variants(t[3])}
                         \cup {<<"if", t[2], t[3], a>> : a \in Variants(t[4])}
+      [] t[1] = "chain" -> {<<"chain", t[2], t[3], a, t[5], t[6]>> : a \in Variants(t[4])}
+                           \cup {<<"chain", t[2], t[3], t[4], a, t[6]>> : a \in Variants(t[5])}
+                           \cup {<<"chain", t[2], t[3], t[4], t[5], a>> : a \in Variants(t[6])}
       [] OTHER -> RootAC(t) \cup {<<t[1], a, t[3]>> : a \in Variants(t[2])}
                             \cup {<<t[1], t[2], a>> : a \in Variants(t[3])}
 
@@ -122,6 +141,9 @@ RootMut(t) ==
       [] t[1] = "neg" -> {<<"abs", t[2]>>}
       [] t[1] = "abs" -> {<<"neg", t[2]>>}
       [] t[1] = "if" -> {<<"if", t[2], t[4], t[3]>>}
+      [] t[1] = "chain" -> {<<"chain", t[2], t[3], t[6], t[5], t[4]>>,          \* operands reversed, operators kept
+                            <<"chain", t[3], t[2], t[4], t[5], t[6]>>,          \* the two operators exchanged
+                            <<"chain", t[3], t[2], t[6], t[5], t[4]>>}          \* both (NOT the mirror image: that needs flipped operators)
       [] t[1] \in {"-", "//", "%", "<"} -> {<<t[1], t[3], t[2]>>}            \* swap non-commutative operands
       [] t[1] = "min" -> {<<"max", t[2], t[3]>>, <<"min", t[3], t[2]>>}      \* change function / positional args
       [] t[1] = "max" -> {<<"min", t[2], t[3]>>}
@@ -132,6 +154,7 @@ Mutations(t) ==
     (CASE t[1] \in {"v", "c"} -> {}
        [] t[1] \in Unary -> {<<t[1], a>> : a \in RootMut(t[2])}
        [] t[1] = "if" -> {<<"if", a, t[3], t[4]>> : a \in RootMut(t[2])} \cup {<<"if", t[2], a, t[4]>> : a \in RootMut(t[3])}
+       [] t[1] = "chain" -> {<<"chain", t[2], t[3], a, t[5], t[6]>> : a \in RootMut(t[4])}
        [] OTHER -> {<<t[1], a, t[3]>> : a \in RootMut(t[2])} \cup {<<t[1], t[2], a>> : a \in RootMut(t[3])})
 
 (****************************** state machine *****************************)
